@@ -27,6 +27,7 @@ type Features struct {
 	NoUnaryOnBool                                        bool // with Unary: ~ only on Int operands
 	NoFloatIntoInt                                       bool // with MixedWrites: only Int values into Float metrics
 	TimeBuiltins                                         bool
+	IncAsValue                                           bool // m++ / m-- used as an Int operand (never with R)
 	NoRecursiveDecorators                                bool // a decorator is not used inside its own decorated block
 	OnePatternPerCond                                    bool // at most one pattern (line pattern or match operator) per condition
 	NoMixedMetricReads                                   bool // no metric reads inside mixed Int/Float arithmetic or comparisons
@@ -444,7 +445,12 @@ func (g *G) intLeaf(d int) *Expr {
 	case 2:
 		if g.F.MetricReads && g.inKey == 0 {
 			if ms := g.metricsOf(TInt); len(ms) > 0 && d < g.F.MaxExprDepth+1 {
-				return g.mread(pick(g, "imetric", ms), d+1)
+				e := g.mread(pick(g, "imetric", ms), d+1)
+				if g.F.IncAsValue && g.chance("incasvalue", 30) {
+					e.Post = pick(g, "postop", []string{"++", "--"})
+					g.class("increment-used-as-value")
+				}
+				return e
 			}
 		}
 	}
